@@ -17,6 +17,10 @@ NO_PANIC_REVIEWED = {
     # #[track_caller] only to capture a Location / improve messages; no argument-dependent panic
     'log::__private_api::loc': 'captures the caller Location for the log record',
     'core::convert::Into::into': 'blanket impl forwarding to From::from, which is followed as an edge (via_from)',
+    'core::option::Option::<T>::unwrap_or_else': 'panics only if the closure does; the closure body is a node of the cone in its own right',
+    'core::result::Result::<T, E>::unwrap_or_else': 'panics only if the closure does; the closure body is a node of the cone in its own right',
+    'core::option::Option::<T>::map_or_else': 'panics only if a closure does; the closure bodies are nodes of the cone',
+    'core::option::Option::<T>::get_or_insert_with': 'panics only if the closure does; the closure body is a node of the cone',
     'core::ops::try_trait::FromResidual::from_residual': 'the `?` operator: #[track_caller] only for error provenance; converts the error with From (thiserror-generated impls here)',
 }
 ASSERT_IGNORED = ('ResumedAfterReturn', 'ResumedAfterPanic', 'ResumedAfterDrop',
